@@ -6,12 +6,16 @@ import (
 	"context"
 	"encoding/json"
 	"errors"
+	"fmt"
 	"io"
 	"log/slog"
 	"math"
 	"net"
 	"net/http"
 	"net/http/httptest"
+	"os"
+	"strings"
+	"sync"
 	"sync/atomic"
 	"syscall"
 	"testing"
@@ -23,6 +27,7 @@ import (
 	"github.com/thushan/olla/internal/core/domain"
 	"github.com/thushan/olla/internal/core/ports"
 	"github.com/thushan/olla/internal/logger"
+	"github.com/thushan/olla/internal/verifhook"
 	"github.com/thushan/olla/internal/zzverif"
 )
 
@@ -60,13 +65,35 @@ func TestVerif_HealthSched(t *testing.T) {
 	defer tr.Close()
 	scns := zzverif.LoadScenarios()
 	lg := logger.NewPlainStyledLogger(slog.New(slog.NewTextHandler(io.Discard, nil)))
-	zzverif.Parallel(len(scns), 24, func(sn int) {
+	// scheduler gate at health.store (between a check's probe and its repository write): a scenario can park
+	// one check there and let other writers run before releasing it. Keyed by the endpoint's (unique) name.
+	type gate struct {
+		hold    atomic.Bool
+		parked  chan struct{}
+		release chan struct{}
+	}
+	var gates sync.Map
+	verifhook.Set(func(name, key string) {
+		if name != "health.store" {
+			return
+		}
+		if v, ok := gates.Load(key); ok {
+			g := v.(*gate)
+			if g.hold.CompareAndSwap(true, false) {
+				g.parked <- struct{}{}
+				<-g.release
+			}
+		}
+	})
+	defer verifhook.Set(nil)
+	// An environment fault is a transport error between MY client and MY answering backend (nothing of olla's
+	// is in that path): the scenario's recording is discarded and the scenario re-run on a fresh stack. A
+	// fault that persists makes the run inconclusive; it is never turned into a verdict.
+	runOne := func(sn int, b *zzverif.Block) (envFault string) {
 		var steps []json.RawMessage
 		if err := json.Unmarshal(scns[sn], &steps); err != nil {
 			panic(err)
 		}
-		b := tr.Block()
-		defer b.Flush()
 		_, a0 := zzverif.Tok(steps[0]) // ["Start", ci, backend]
 		ci := zzverif.Int(a0[0])
 		var mode atomic.Value
@@ -103,16 +130,17 @@ func TestVerif_HealthSched(t *testing.T) {
 				},
 			},
 		}
+		rec := &verifRecClient{inner: client}
 		ctx := context.Background()
 		repo := discovery.NewStaticEndpointRepository()
 		prio := 100
 		if err := repo.LoadFromConfig(ctx, []config.EndpointConfig{{
-			Name: "e1", URL: srv.URL, Type: "ollama", HealthCheckURL: "/health", ModelURL: "/api/tags",
+			Name: fmt.Sprintf("e1-%d", sn), URL: srv.URL, Type: "ollama", HealthCheckURL: "/health", ModelURL: "/api/tags",
 			CheckInterval: time.Duration(ci) * time.Second, CheckTimeout: 100 * time.Millisecond, Priority: &prio,
 		}}); err != nil {
 			panic(err)
 		}
-		chk := NewHTTPHealthChecker(repo, lg, client)
+		chk := NewHTTPHealthChecker(repo, lg, rec)
 		var cbs atomic.Int64
 		// the production callback re-discovers models over HTTP with the context it is given; this one
 		// "works" for 40 ms and counts only if its context stayed alive (a cancelled re-discovery is none)
@@ -134,11 +162,16 @@ func TestVerif_HealthSched(t *testing.T) {
 		}
 		hcURL := get().HealthCheckURLString
 		lastSync := time.Now()
+		var slowDone chan struct{}  // non-nil while a check is parked at the gate
+		var slowShift time.Duration // logical-time shift applied while it was parked
 		// shift makes logical time pass by d seconds: every stored timestamp moves by (real elapsed - d)
 		shift := func(d int) {
 			now := time.Now()
 			delta := now.Sub(lastSync) - time.Duration(d)*time.Second
 			lastSync = now
+			if slowDone != nil {
+				slowShift += delta // a parked check computes its timestamps from a local clock reading
+			}
 			e := get()
 			if !e.NextCheckTime.IsZero() {
 				e.NextCheckTime = e.NextCheckTime.Add(delta)
@@ -156,12 +189,27 @@ func TestVerif_HealthSched(t *testing.T) {
 				}
 			}
 		}
+		// fixSlow moves the record the parked check just wrote by the logical time that passed while it was parked
+		fixSlow := func() {
+			e := get()
+			if !e.NextCheckTime.IsZero() {
+				e.NextCheckTime = e.NextCheckTime.Add(slowShift)
+			}
+			if !e.LastChecked.IsZero() {
+				e.LastChecked = e.LastChecked.Add(slowShift)
+			}
+			_ = repo.UpdateEndpoint(ctx, e)
+			slowShift = 0
+		}
 		state := func(prev string) []any {
 			e := get()
 			// a recovery callback runs in its own goroutine: give it time when one may be coming
 			wait := 3 * time.Millisecond
 			if e.Status == domain.StatusHealthy && prev != string(domain.StatusHealthy) {
 				wait = 2 * time.Second
+			} else if e.Status == domain.StatusHealthy && prev == "slow" {
+				// an overlapped store may fire a callback although the stored status did not change
+				wait = 600 * time.Millisecond
 			}
 			before := cbs.Load()
 			dl := time.Now().Add(wait)
@@ -177,6 +225,27 @@ func TestVerif_HealthSched(t *testing.T) {
 			}
 			return []any{"status", string(e.Status), "cf", e.ConsecutiveFailures, "mult", e.BackoffMultiplier, "iv", iv, "cb", cbs.Load()}
 		}
+		// the probe timeout is short only while the backend is scripted to time out: a loaded machine must not
+		// turn an answering backend into a timeout
+		applyTimeout := func() {
+			e := get()
+			if mode.Load().(string) == "timeout" {
+				e.CheckTimeout = 100 * time.Millisecond
+			} else {
+				e.CheckTimeout = 3 * time.Second
+			}
+			_ = repo.UpdateEndpoint(ctx, e)
+		}
+		noteFault := func(calls int64, lerr string) {
+			m := mode.Load().(string)
+			if calls > 0 && probes.Load() == 0 && lerr != "" && !strings.Contains(lerr, "context") &&
+				(m == "ok" || m == "http4xx" || m == "http5xx") {
+				envFault = m + " backend never reached: " + lerr
+			}
+		}
+		g := &gate{parked: make(chan struct{}, 1), release: make(chan struct{}, 1)}
+		gates.Store(fmt.Sprintf("e1-%d", sn), g)
+		defer gates.Delete(fmt.Sprintf("e1-%d", sn))
 		b.Emit("Reset", "scn", sn, "ci", ci, "backend", mode.Load().(string))
 		for _, s := range steps[1:] {
 			name, args := zzverif.Tok(s)
@@ -192,12 +261,53 @@ func TestVerif_HealthSched(t *testing.T) {
 				b.Emit("Tick", "d", d)
 			case "Round":
 				shift(0)
+				applyTimeout()
 				probes.Store(0)
 				rctx, cancel := context.WithTimeout(ctx, 15*time.Second)
 				chk.performHealthChecks(rctx)
 				cancel()
-				kv := append([]any{"probes", probes.Load()}, state(prev)...)
+				calls, lerr := rec.calls.Swap(0), rec.lastErr()
+				noteFault(calls, lerr)
+				kv := append([]any{"probes", probes.Load(), "calls", calls, "err", lerr}, state(prev)...)
 				b.Emit("Round", kv...)
+			case "SlowBegin":
+				// a due check runs its probe and parks before storing the result
+				shift(0)
+				applyTimeout()
+				probes.Store(0)
+				g.hold.Store(true)
+				slowShift = 0
+				slowDone = make(chan struct{})
+				go func(done chan struct{}) {
+					rctx, cancel := context.WithTimeout(ctx, 20*time.Second)
+					chk.performHealthChecks(rctx)
+					cancel()
+					close(done)
+				}(slowDone)
+				select {
+				case <-g.parked:
+					calls, lerr := rec.calls.Swap(0), rec.lastErr()
+					noteFault(calls, lerr)
+					b.Emit("SlowBegin", "probes", probes.Load(), "calls", calls, "err", lerr)
+				case <-slowDone: // nothing was due after all: the spec will not be able to explain a SlowBegin
+					g.hold.Store(false)
+					slowDone = nil
+					b.Emit("SlowBegin", "probes", probes.Load(), "skipped", true)
+				case <-time.After(10 * time.Second):
+					b.Emit("Hang", "what", "slow check neither parked nor finished")
+				}
+			case "SlowEnd":
+				if slowDone == nil { // the overlapped check never started (it was not due): nothing ends
+					continue
+				}
+				g.release <- struct{}{}
+				<-slowDone
+				slowDone = nil
+				fixSlow()
+				if prev == string(domain.StatusHealthy) {
+					prev = "slow"
+				}
+				b.Emit("SlowEnd", state(prev)...)
 			case "ProxyFailure":
 				shift(0)
 				snap := get()
@@ -211,9 +321,63 @@ func TestVerif_HealthSched(t *testing.T) {
 				panic("unknown step " + name)
 			}
 		}
+		if slowDone != nil { // scenario ended with a parked check: let it store, and record that
+			prev := string(get().Status)
+			g.release <- struct{}{}
+			<-slowDone
+			fixSlow()
+			if prev == string(domain.StatusHealthy) {
+				prev = "slow"
+			}
+			b.Emit("SlowEnd", state(prev)...)
+		}
 		time.Sleep(70 * time.Millisecond)
 		b.Emit("Final", "cb", cbs.Load())
+		return envFault
+	}
+	zzverif.Parallel(len(scns), 24, func(sn int) {
+		for try := 0; ; try++ {
+			b := tr.Block()
+			fault := runOne(sn, b)
+			if fault == "" {
+				b.Flush()
+				return
+			}
+			fmt.Fprintf(os.Stderr, "ENVFAULT scenario %d try %d: %s\n", sn, try, fault)
+			if try == 2 {
+				panic("persistent environment fault: " + fault)
+			}
+		}
 	})
+}
+
+// verifRecClient counts the checker's HTTP calls and keeps the last transport error (diagnostics only).
+type verifRecClient struct {
+	inner HTTPClient
+	calls atomic.Int64
+	mu    sync.Mutex
+	last  string
+}
+
+func (c *verifRecClient) Do(req *http.Request) (*http.Response, error) {
+	c.calls.Add(1)
+	resp, err := c.inner.Do(req)
+	c.mu.Lock()
+	if err != nil {
+		c.last = err.Error()
+	} else {
+		c.last = ""
+	}
+	c.mu.Unlock()
+	return resp, err
+}
+
+func (c *verifRecClient) lastErr() string {
+	c.mu.Lock()
+	defer c.mu.Unlock()
+	s := c.last
+	c.last = ""
+	return s
 }
 
 // osSyscallErr is ECONNREFUSED as the kernel reports it for a refused dial.
